@@ -471,6 +471,11 @@ func c01Cases(kind string, seed uint64, n int) []c01Case {
 				mk("ifchanged-multi", "a.tpl", map[string]string{"a.tpl": `{% for c in "` + seq + `" %}{% ifchanged ` + watch + ` %}{{ c }}{% else %}-{% endifchanged %}{% endfor %}`})
 			}
 		}
+		// two blocks that contain each other through inheritance
+		mk("block-cycle", "child.tpl", map[string]string{"base.tpl": "[{% block a %}A0({% block b %}B0{% endblock %}){% endblock %}]",
+			"child.tpl": `{% extends "base.tpl" %}{% block b %}B1<{% block a %}{{ block.Super }}{% endblock %}>{% endblock %}`})
+		mk("block-cycle", "leaf.tpl", map[string]string{"base.tpl": "{% block a %}{% block b %}{% block c %}{% endblock %}{% endblock %}{% endblock %}",
+			"mid.tpl": `{% extends "base.tpl" %}{% block c %}{% block a %}{{ block.Super }}{% endblock %}{% endblock %}`, "leaf.tpl": `{% extends "mid.tpl" %}{% block b %}x{{ block.Super }}{% endblock %}`})
 		// a cycle value fed back into its own cycle
 		mk("cycle-self", "a.tpl", map[string]string{"a.tpl": `{% for i in "abc" %}{% cycle x as x %}{% endfor %}`})
 		mk("cycle-self", "a.tpl", map[string]string{"a.tpl": `{% for i in "abcd" %}{% cycle "a" "b" as c silent %}{% cycle c as c %}{{ c }}{% endfor %}`})
